@@ -597,6 +597,176 @@ def report_partition(a):
 
 
 # --------------------------------------------------------------------------------------------------
+# input parameters: PathAwareValue::merge (map / map arm) and the two call sites that merge parameters into a document
+# --------------------------------------------------------------------------------------------------
+def merge_map(a):
+    PV = enum_variants(a.src, "rules/path_value.rs", "PathAwareValue")
+    MAP, LIST = PV.index("Map"), PV.index("List")
+    ex = a.exec(r"(?:rules::)?path_value::<impl at guard/src/rules/path_value\.rs:\d+:\d+: \d+:\d+>::merge",
+                {"contains_key": lambda ex, av: ("bool", ex.fresh("Bool", "has")), "insert": mirexec.m_option,
+                 "next": mirexec.m_iter_next, "into_iter": mirexec.m_new_iter, "iter": mirexec.m_new_iter,
+                 "is_null": lambda ex, av: ("bool", ex.fresh("Bool", "isnull")), "extend_str": lambda ex, av: ex.opq()},
+                log=("push", "extend"), unroll=2, max_paths=40000)
+    a.fns.append("rules::path_value::PathAwareValue::merge")
+    me, other = ex.arg_env["_1"], ex.arg_env["_2"]
+    d_me, d_ot = disc(ex, me), disc(ex, other)
+    bad, nit = [], 0
+    for p in ex.paths:
+        r = p.ret
+        if p.outcome == "panic" or not r or r[0] != "enum" or r[1] != "Result":
+            bad.append(pc_term(p.pc))
+            continue
+        its = iterations(ex, p)
+        it_idx = {i: k for k, _el, _t, i in its}
+        cur, per = None, {}
+        for i, e in enumerate(p.events):
+            if i in it_idx:
+                cur = it_idx[i]
+            if e[0] == "call" and e[1] in ("contains_key", "insert", "push"):
+                per.setdefault(cur, []).append(e)
+        both_maps = f"(and (= {d_me} {MAP}) (= {d_ot} {MAP}))"
+        both_lists = f"(and (= {d_me} {LIST}) (= {d_ot} {LIST}))"
+        present, complete, consistent = [], [], []
+        for k, el, tag, _i in its:
+            nit += 1
+            key = field(ex, el, 0, "String") if el[0] == "opaque" else None
+            val = field(ex, el, 1, "PathAwareValue") if el[0] == "opaque" else None
+            evs = per.get(k, [])
+            here = f"(= {tag} 1)"
+            pk = []
+            for e in evs:
+                if e[1] == "contains_key" and e[3][0] == "bool":
+                    pk.append(e[3][1])
+                if e[1] == "insert" and e[3][0] == "enum":
+                    pk.append(f"(= {e[3][2]} 1)")          # insert() returned the previous value: the key was already defined
+                    # IndexMap contract: insert returns Some(previous) exactly when contains_key was true just before
+                    for e2 in evs:
+                        if e2[1] == "contains_key" and e2[3][0] == "bool" and same(e2[2][0], e[2][0]):
+                            consistent.append(f"(= {e2[3][1]} (= {e[3][2]} 1))")
+            present.append(f"(and {here} (or false {' '.join(pk)}))")
+            ins = [e for e in evs if e[1] == "insert"]
+            stored = bool(ins) and len(ins[0][2]) == 3 and same(ins[0][2][1], key) and same(ins[0][2][2], val)
+            keyed = any(e[1] == "push" for e in evs)
+            complete.append(f"(=> {here} {'true' if (stored and keyed) else 'false'})")
+        anyp = "(or false " + " ".join(present) + ")"
+        good_ok = f"(or {both_lists} (and {both_maps} (not {anyp}) {' '.join(complete) if complete else 'true'}))"
+        good_err = f"(or (not (or {both_maps} {both_lists})) (and {both_maps} {anyp}))"
+        good = f"(ite (= {r[2]} 0) {good_ok} {good_err})"
+        bad.append(f"(and {pc_term(p.pc)} {' '.join(consistent)} (not {good}))")
+    c = a.discharge("PathAwareValue::merge/maps", ex, bad,
+                    f"merge, second map with <= 2 entries ({nit} entries over all paths; `contains_key` / the previous value returned by "
+                    "`insert` modelled as arbitrary): Ok only if NO key of the second map was already defined - for whatever values - and "
+                    "then every entry is stored under its own key with its own value and listed in `keys`; a key defined twice is an Err; "
+                    "two maps with disjoint keys never give an Err; map-vs-list / scalar operands are an Err")
+    if c:
+        c["replay"] = replay_param_conflict_values(a)
+        c["reproduced"] = c["replay"].get("reproduced", False)
+        a.candidates.append(c)
+
+
+def replay_param_conflict_values(a):
+    """the same top-level key in two sources, for every kind of first / second value (null, scalar, list, map), in both
+    orders and as parameter-vs-parameter and parameter-vs-document: always an error exit, never a silent choice"""
+    import itertools, os, shutil, subprocess, tempfile
+    exe = a.cli()
+    if not exe:
+        return {"reproduced": False, "note": "native build failed"}
+    vals = ["null", "1", "\"s\"", "[1]", "{\"k\": 1}", "false", "\"\""]
+    d = tempfile.mkdtemp(prefix="cfnverif_replay_")
+    out = []
+    try:
+        open(os.path.join(d, "r.guard"), "w").write("rule r { b == 1 }\n")
+        open(os.path.join(d, "plain.json"), "w").write('{"b": 1}\n')
+        env = dict(os.environ)
+        env["RUST_BACKTRACE"] = "0"
+        for v1, v2 in itertools.product(vals, repeat=2):
+            open(os.path.join(d, "p1.json"), "w").write('{"a": %s}\n' % v1)
+            open(os.path.join(d, "p2.json"), "w").write('{"a": %s}\n' % v2)
+            open(os.path.join(d, "dd.json"), "w").write('{"a": %s, "b": 1}\n' % v2)
+            for label, cmd in (("two parameter files", ["-d", "plain.json", "-i", "p1.json", "-i", "p2.json"]),
+                               ("parameter file and document", ["-d", "dd.json", "-i", "p1.json"])):
+                full = [exe, "validate", "-r", os.path.join(d, "r.guard")] + [os.path.join(d, x) if x.endswith(".json") else x for x in cmd]
+                p = subprocess.run(full, stdout=subprocess.PIPE, stderr=subprocess.PIPE, text=True, timeout=120, env=env, cwd=d)
+                if p.returncode in (0, 19, 101):
+                    out.append({"sources": label, "first_value": v1, "second_value": v2, "expected": "an error exit", "observed_exit": p.returncode})
+        return {"reproduced": bool(out), "mismatches": out[:5], "pairs_tried": len(vals) ** 2 * 2}
+    finally:
+        shutil.rmtree(d, ignore_errors=True)
+
+
+def merge_unwrap(a):
+    """`--structured` path: the closure that merges the input parameters into every document must not unwrap a failing merge"""
+    pat = r"reporters::validate::structured::<impl at guard/src/commands/reporters/validate/structured\.rs:\d+:\d+: \d+:\d+>::evaluate::\{closure#(\d+)\}"
+    found = []
+    for m in re.finditer(r"^fn (" + pat + r")\(", a.mir, re.M):
+        text = mirsmt.find_fn(a.mir, re.escape(m.group(1)))
+        if re.search(r"::merge\(", text):
+            found.append((m.group(1), text))
+    if not found:
+        a.ob.items.append({"obligation": "structured/merge-site", "describe": "no closure of StructuredEvaluator::evaluate calls merge "
+                           "(restructured): nothing to examine here", "verdicts": {}, "status": "proved-no-site", "model": None})
+        return
+    for name, text in found:
+        mm = dict(mirexec.COMMON_MODELS)
+        mm.update({"merge": m_result_opq})
+        ex = mirexec.Exec(text, a.enums, mirsmt.consts_of(a.mir), mm, {"unwrap", "expect"}, unroll=1, mir=a.mir, max_paths=20000)
+        ex.run()
+        a.npaths += len(ex.paths)
+        a.fns.append("commands::reporters::validate::structured::StructuredEvaluator::evaluate::{closure} (parameter merge)")
+        bad, n = [], 0
+        for p in ex.paths:
+            for e in p.events:
+                if e[0] == "call" and e[1] in ("unwrap", "expect") and e[2] and e[2][0][0] == "enum" and e[2][0][1] == "Result":
+                    n += 1
+                    bad.append(f"(and {pc_term(p.pc[:e[4]])} (= {e[2][0][2]} 1))")
+            if p.outcome == "panic":
+                bad.append(pc_term(p.pc))
+        c = a.discharge("structured/merge-never-unwrapped-on-error", ex, bad,
+                        f"--structured: merging the input parameters into a document ({n} unwrap/expect sites on a fallible result): a "
+                        "merge conflict (Err) is never unwrapped into a panic", witness=False)
+        if c:
+            c["replay"] = replay_param_conflict(a)
+            c["reproduced"] = c["replay"].get("reproduced", False)
+            a.candidates.append(c)
+
+
+def replay_param_conflict(a):
+    """an input-parameter file and the document define the same top-level key: the run must end with an error exit
+    (not 0, not 19) and must not panic, in plain and in --structured mode"""
+    import os, shutil, subprocess, tempfile
+    exe = a.cli()
+    if not exe:
+        return {"reproduced": False, "note": "native build failed"}
+    d = tempfile.mkdtemp(prefix="cfnverif_replay_")
+    out = []
+    try:
+        open(os.path.join(d, "p.json"), "w").write('{"a": 1}\n')
+        open(os.path.join(d, "q.json"), "w").write('{"c": 3}\n')
+        open(os.path.join(d, "d.json"), "w").write('{"a": 2,\n "b": 1}\n')
+        open(os.path.join(d, "e.json"), "w").write('{"b": 1}\n')
+        open(os.path.join(d, "r.guard"), "w").write("rule r { a == 1 }\nrule s { b == 1 }\n")
+        env = dict(os.environ)
+        env["RUST_BACKTRACE"] = "0"
+        for mode in ([], ["--structured", "-o", "json", "--show-summary", "none"]):
+            for dfile, params, conflict in (("d.json", ["p.json"], True), ("e.json", ["p.json"], False), ("e.json", ["p.json", "q.json"], False),
+                                            ("e.json", ["q.json", "p.json"], False), ("d.json", ["q.json", "p.json"], True)):
+                cmd = [exe, "validate", "-r", os.path.join(d, "r.guard"), "-d", os.path.join(d, dfile)] + mode
+                for pf in params:
+                    cmd += ["-i", os.path.join(d, pf)]
+                p = subprocess.run(cmd, stdout=subprocess.PIPE, stderr=subprocess.PIPE, text=True, timeout=120, env=env)
+                rc = p.returncode
+                if conflict and (rc in (0, 19, 101) or "panicked" in p.stderr):
+                    out.append({"mode": mode[:1] or ["plain"], "document": dfile, "parameters": params, "expected": "an error exit, no panic",
+                                "observed_exit": rc, "stderr": p.stderr[-200:]})
+                if not conflict and rc != 0:
+                    out.append({"mode": mode[:1] or ["plain"], "document": dfile, "parameters": params, "expected": "exit 0 (a == 1 from the parameters, b == 1 from the data)",
+                                "observed_exit": rc, "stderr": p.stderr[-200:]})
+        return {"reproduced": bool(out), "mismatches": out[:4]}
+    finally:
+        shutil.rmtree(d, ignore_errors=True)
+
+
+# --------------------------------------------------------------------------------------------------
 # C15: variable resolution through the scope chain, parameterised rule calls
 # --------------------------------------------------------------------------------------------------
 SCOPE_IMPL = r"(?:rules::)?eval_context::<impl at guard/src/rules/eval_context\.rs:\d+:\d+: \d+:\d+>::"
@@ -698,6 +868,7 @@ def replay_variables(a):
 
 def param_rule_call(a):
     PR = struct_fields(a.src, "rules/exprs.rs", "ParameterizedRule")
+    PC = struct_fields(a.src, "rules/exprs.rs", "ParameterizedNamedRuleClause")
     ex = a.exec(r"(?:(?:rules::)?eval::)?eval_parameterized_rule_call",
                 {"find_parameterized_rule": m_result_opq, "query": m_result_opq, "resolve_function": m_result_opq,
                  "eval_rule": mirexec.m_result_status, "next": mirexec.m_iter_next, "iter": mirexec.m_new_iter,
@@ -743,15 +914,49 @@ def param_rule_call(a):
             if not ok:
                 probs.append("the called rule is not evaluated in a context holding exactly the bound arguments")
             n_it = "(+ 0 0 " + " ".join(f"(ite (= {t} 1) 1 0)" for _k, _e, t, _i in its) + ")"
-            good = f"(= {n_it} {len(ins)})"
+            params = field(ex, ex.arg_env["_1"], PC.index("parameters"), "Vec")
+            good = f"(and (= {n_it} {len(ins)}) (= {ex.len_of(names)} {ex.len_of(params)}))"
         else:
             good = f"(= {r[2]} 1)"
         bad.append(f"(and {pc_term(p.pc)} (not {'false' if probs else good}))")
-    a.discharge("eval_parameterized_rule_call/binding", ex, bad,
+    c = a.discharge("eval_parameterized_rule_call/binding", ex, bad,
                 f"call of a parameterised rule with <= 2 arguments ({nins} bindings over all paths): an arity mismatch or a failing "
                 "argument query is an error and the rule is not evaluated; otherwise the k-th argument's value is bound to the k-th "
                 "parameter name, the called rule's body is evaluated once in a context holding exactly these bindings on top of the "
                 "caller's context, and its status is returned unchanged")
+    if c:
+        c["replay"] = replay_param_rules(a)
+        c["reproduced"] = c["replay"].get("reproduced", False)
+        a.candidates.append(c)
+
+
+def replay_param_rules(a):
+    import os, shutil, subprocess, tempfile
+    exe = a.cli()
+    if not exe:
+        return {"reproduced": False, "note": "native build failed"}
+    data = '{"a": 1,\n "b": 2}\n'
+    defs = "rule chk(p, q) {\n  %p == 1\n  %q == 2\n}\n"
+    cases = [(defs + "rule t {\n  chk(a, b)\n}\n", "PASS"), (defs + "rule t {\n  chk(b, a)\n}\n", "FAIL"),
+             (defs + "rule t {\n  chk(1, 2)\n}\n", "PASS"), (defs + "rule t {\n  chk(a, 3)\n}\n", "FAIL"),
+             (defs + "let p = b\nrule t {\n  chk(a, b)\n}\n", "PASS"),
+             (defs + "rule t {\n  chk(a)\n}\n", "ERROR"), (defs + "rule t {\n  chk(a, b, a)\n}\n", "ERROR")]
+    out = []
+    for rules, exp in cases:
+        rc, rep, err = a.run_structured(exe, rules, [data])
+        if exp == "ERROR":
+            if rc in (0, 19):
+                out.append({"rules_file": rules, "expected": "an error exit", "observed_exit": rc})
+            continue
+        if not (rep and isinstance(rep, list) and rep):
+            out.append({"rules_file": rules, "problem": "no report", "exit": rc, "stderr": (err or "")[-200:]})
+            continue
+        r = rep[0]
+        got = "PASS" if "t" in r.get("compliant", []) else ("SKIP" if "t" in r.get("not_applicable", []) else "FAIL")
+        if got != exp:
+            out.append({"rules_file": rules, "expected": exp, "observed": got})
+    real = [o for o in out if "problem" not in o]
+    return {"reproduced": bool(real), "mismatches": out[:4], "data": data}
 
 
 def report_rule_listing(a):
@@ -843,4 +1048,6 @@ SITES = {
     "C12": [structured_report, junit_test_case, data_input_wiring],
     "C09": [report_partition, report_rule_listing],
     "C15": [scope_resolution, param_rule_call],
+    "C17": [merge_map, merge_unwrap],
+    "C08": [merge_unwrap],
 }
